@@ -545,17 +545,6 @@ class LoopTr:
             ann = ''
         return env2, f'let {name}{ann} := {term}'
 
-    def with_binders(self, env, ind, build):
-        """translate one statement: `build(env)` -> (lines, env') is run collecting binders, which are emitted first"""
-        saved = self.binders
-        self.binders = []
-        try:
-            lines, env2, tail = build(env)
-            binders = self.binders
-        finally:
-            self.binders = saved
-        return binders, lines, env2, tail
-
     def emit(self, binders, lines, ind, rest_fn, env2):
         """wrap: binders, then the statement's own lets, then the rest"""
         out, closing, cur = [], 0, ind
@@ -634,9 +623,6 @@ class LoopTr:
             if self.pure: raise Untranslatable('return inside a loop body')
             if self.spec.returns is None or s.value is None:
                 raise Untranslatable('unexpected return')
-            def build(env1):
-                t, ty = self.expr(s.value, env1, self.spec.returns if not self.spec.ret_wrap else None)
-                return [('$ret', t, ty)], env1
             saved = self.binders; self.binders = []
             try:
                 t, ty = self.expr(s.value, env, self.spec.returns if not self.spec.ret_wrap else None)
